@@ -73,11 +73,11 @@ class Block(Entity):
         :returns: The newly created tag.
         :rtype: nixio.MultiTag
         """
-        if copy_from:
+        if copy_from is not None:
             if not isinstance(copy_from, MultiTag):
                 raise TypeError("Object to be copied is not a MultiTag")
-            objid = self._copy_objects(copy_from, "multi_tags", keep_copy_id, name)
-            return self.multi_tags[objid]
+            objname = self._copy_objects(copy_from, "multi_tags", keep_copy_id, name)
+            return self.multi_tags[objname]
 
         util.check_entity_name_and_type(name, type_)
         multi_tags = self._h5group.open_group("multi_tags")
@@ -140,11 +140,11 @@ class Block(Entity):
         :returns: The newly created tag.
         :rtype: nixio.Tag
         """
-        if copy_from:
+        if copy_from is not None:
             if not isinstance(copy_from, Tag):
                 raise TypeError("Object to be copied is not a Tag")
-            objid = self._copy_objects(copy_from, "tags", keep_copy_id, name)
-            return self.tags[objid]
+            objname = self._copy_objects(copy_from, "tags", keep_copy_id, name)
+            return self.tags[objname]
 
         util.check_entity_name_and_type(name, type_)
         tags = self._h5group.open_group("tags")
@@ -233,11 +233,11 @@ class Block(Entity):
         :rtype: :class:`~nixio.DataArray`
         """
 
-        if copy_from:
+        if copy_from is not None:
             if not isinstance(copy_from, DataArray):
                 raise TypeError("Object to be copied is not a DataArray")
-            objid = self._copy_objects(copy_from, "data_arrays", keep_copy_id, name)
-            return self.data_arrays[objid]
+            objname = self._copy_objects(copy_from, "data_arrays", keep_copy_id, name)
+            return self.data_arrays[objname]
 
         if data is None:
             if shape is None:
@@ -306,11 +306,11 @@ class Block(Entity):
         :returns: The newly created data frame.
         :rtype: :class:`~nixio.DataFrame`
         """
-        if copy_from:
+        if copy_from is not None:
             if not isinstance(copy_from, DataFrame):
                 raise TypeError("Object to be copied is not a DataFrame")
-            objid = self._copy_objects(copy_from, "data_frames", keep_copy_id, name)
-            return self.data_frames[objid]
+            objname = self._copy_objects(copy_from, "data_frames", keep_copy_id, name)
+            return self.data_frames[objname]
 
         util.check_entity_name_and_type(name, type_)
 
@@ -504,8 +504,10 @@ class Block(Entity):
             raise NameError("Name already exist. Possible solution is to "
                             "provide a new name when copying destination "
                             "is the same as the source parent")
-        obj_copy = obj._parent._h5group.copy(source=src, dest=self._h5group, name=name, cls=clsname, keep_id=keep_id)
-        return obj_copy.attrs["entity_id"]
+        obj._parent._h5group.copy(source=src, dest=self._h5group, name=name, cls=clsname, keep_id=keep_id)
+        # the copy is identified by its name: with keep_id the source (possibly
+        # in the same container) carries the same id
+        return name
 
     @property
     def sources(self):
